@@ -570,6 +570,8 @@ def oracle_one(ctx, mods, r, force=None):
     g = np.random.RandomState(seed)
     if nbytes == 1:
         stored = g.randint(0, 256, size=(count, chans)).astype(np.uint8)
+        for i, v in enumerate(p.get("first", [])[:stored.size]):
+            stored.flat[i] = v
         raw = stored.tobytes()
         if coding == "pcm":
             values = stored.astype(np.int64)
@@ -581,6 +583,8 @@ def oracle_one(ctx, mods, r, force=None):
         stored = g.randint(lo, hi, size=(count, chans), dtype=np.int64)
         # extremes at the ends and around the read boundary
         stored.flat[0], stored.flat[-1] = lo, hi - 1
+        for i, v in enumerate(p.get("first", [])[:stored.size]):
+            stored.flat[i] = v
         raw = stored.astype((">" if order == "10" else "<") + "i%d" % nbytes).tobytes()
         values = stored
     cut = p.get("cut")
@@ -594,6 +598,7 @@ def oracle_one(ctx, mods, r, force=None):
     data = file_of(header_segs(std_fields(coding, nbytes, order, chans, count), hdrsize)) + raw
     desc = dict(coding=coding, sample_n_bytes=nbytes, sample_byte_format=order, channels=chans, sample_count=count,
                 header_size=hdrsize, data_bytes=len(raw), mode=mode, cut=cut, dtype=dtype, numpy_seed=seed,
+                first_samples=p.get("first", []),
                 how="stored = RandomState(seed).randint(...,(count,chans)); see harness/c12.py oracle_one")
     ctx.count("oracle:" + coding + str(nbytes) + ":" + mode)
     ctx.count("oracle:chans=%d" % chans if chans <= 8 else "oracle:chans>8")
@@ -710,6 +715,11 @@ def search(ctx, mods):
         dict(coding3=("pcm", 2, "01"), chans=1, count=9000, mode="truncated", cut=1615, dtype=None),
         dict(coding3=("ulaw", 1, "1"), chans=1, count=20000, mode="truncated", cut=3000, dtype=None),
         dict(coding3=("alaw", 1, "1"), chans=3, count=6000, mode="exact", dtype="uint8"),
+        # data that happens to start with the shorten magic b"ajkg"
+        dict(coding3=("pcm", 2, "01"), chans=1, count=6, mode="exact", dtype=None, first=[27233, 26475]),
+        dict(coding3=("pcm", 2, "10"), chans=2, count=50, mode="exact", dtype=None, first=[24938, 27495]),
+        dict(coding3=("ulaw", 1, "1"), chans=1, count=40, mode="exact", dtype=None, first=[97, 106, 107, 103]),
+        dict(coding3=("alaw", 1, None), chans=4, count=9, mode="truncated", cut=3, dtype="uint8", first=[97, 106, 107, 103]),
     ]
     for s in seeds:
         f = oracle_one(ctx, mods, r, s)
@@ -892,7 +902,7 @@ def replay(ctx, rp):
         if "numpy_seed" in inp:
             force = dict(coding3=(inp["coding"], inp["sample_n_bytes"], inp["sample_byte_format"]), chans=inp["channels"],
                          count=inp["sample_count"], hdrsize=inp["header_size"], seed=inp["numpy_seed"], mode=inp["mode"],
-                         cut=inp.get("cut"), dtype=inp.get("dtype"))
+                         cut=inp.get("cut"), dtype=inp.get("dtype"), first=inp.get("first_samples") or [])
             if inp["mode"] == "excess":
                 print("note: the excess bytes are re-drawn; they do not influence the expected result")
             res = oracle_one(ctx, mods, ctx.rng, force)
